@@ -102,6 +102,11 @@ def run_tlc(
         pass
     if m:
         r.states, r.distinct = int(m.group(1)), int(m.group(2))
+    if not r.states:
+        ms = re.search(r"The number of states generated: (\d+)", r.out)
+        if ms:
+            r.states = int(ms.group(1))
+            r.distinct = r.distinct or r.states
     m = _RE_DEPTH.search(r.out)
     if m:
         r.depth = int(m.group(1))
